@@ -12,7 +12,7 @@ man = {
  "setup_cmd": "cd /verif && ./setup.sh",
  "hooks": {
   "guard": "verif",
-  "enable": "go build -tags verif (the harness module /verif/harness replaces github.com/onflow/cadence with /repo); hook files in /repo are //go:build verif",
+  "enable": "./run builds /verif/harness (which replaces github.com/onflow/cadence with /repo's working tree) with -tags verif; there are no hook files in /repo: the only instrumentation (scheduler shims for sync / sync-atomic, map-range order seam; checks C33 and C36) is compiled in by `go build -overlay` generated from the current tree at every run (harness/ovl), build tag verifovl",
   "baseline_off_cmd": "cd /repo && GOFLAGS=-mod=mod go test -json -vet=off -count=1 -timeout 25m ./...",
   "source_commits": checks.get("hook_commits", []),
   "add_only": True
